@@ -3,6 +3,7 @@ from __future__ import annotations
 from collections import defaultdict
 from typing import TypeVar, Callable
 from functools import reduce
+import sympy
 from sympy.printing.str import StrPrinter
 from structlog import get_logger
 
@@ -25,6 +26,14 @@ def break_comment_at_80(acc, x):
 
 
 class BaseGotranODECodePrinter(StrPrinter):
+    def _print_re(self, expr):
+        # All variables are real numbers, but sympy may introduce the real part,
+        # e.g. abs(exp(asin(x))) -> exp(re(asin(x)))
+        return self._print(expr.args[0])
+
+    def _print_im(self, expr):
+        return self._print(sympy.S.Zero)
+
     def _print_Relational(self, expr):
         # v = super()._print_Relational(expr)
         lhs = self._print(expr.lhs)
